@@ -190,6 +190,28 @@ CHECKS = {
               "constructors, the byte formats themselves (judged by laws), random operands beyond the fixed menus."),
         technique="TLA+/TLC: executable Curve model over BigNat re-evaluates every recorded library call (trace validation)",
     ),
+    "C12": dict(
+        category="model_checking",
+        text=("Msm.tla: (1) the meaning of a multi-scalar multiplication in the group of Curve.tla with scalars and bases named by "
+              "patterns; (2) the signed-window (Booth) recoding and the bucket method as functions on integers, model-checked "
+              "exhaustively: for every scalar below 2^8 (quick) / 2^10 (thorough) and every window size 1..5 the digits "
+              "recompose the scalar and stay in [-2^(c-1), 2^(c-1)], and buckets + summation by parts + window shifts equal the "
+              "naive sum on small instances. The driver runs msm_best, msm_parallel, msm_serial and G1Projective::multi_exp on "
+              "BLS12-381 G1 (and BN254 G1) for lengths across every window-size switch (0..7, 31..33, 70, 255, 1000, 8103, "
+              "8104, 8200; thorough: 0..70, more sizes up to 22027) x scalar classes {0, 1, r-1, 2, random, alternating, "
+              "duplicated} x base classes {G, identity, small multiples incl. identity, repeated, mutually opposite, "
+              "duplicated terms} under rayon pools of 1..16 threads; Msm_Trace requires every entry point's result to be the "
+              "model's point. FFT (best_fft), Lagrange / coefficient / extended-coset conversions, rotation, l_i_range incl. "
+              "negative and beyond-n rotations, division by the vanishing polynomial, kate_division, eval_polynomial, "
+              "compute_inner_product and lagrange_interpolate run over the toy field F_12289 (the real generic code) for k = "
+              "1..6 (thorough 1..8) and quotient-degree parameters 2..8 and are re-evaluated by TLC from their definitions "
+              "(DFT by definition with a primitive root, evaluation of the polynomial, defining product of the Lagrange basis)."),
+        design_ref="DESIGN.md 4/C12",
+        note=("Not covered: commitment in Lagrange vs monomial basis, the chunk arithmetic of parallelize / eval_polynomial as such, "
+              "rational arithmetic, get_booth_index directly (private; bound through msm_best results). One open known finding "
+              "(l_i_range at a point of the domain)."),
+        technique="TLA+/TLC model checking of Booth recoding and the bucket method + trace validation of MSM results against the Curve model and of FFT/domain results against their definitions",
+    ),
     "C13": dict(
         category="exploration",
         text=("Pairing.tla models the multi-pairing computation in discrete-logarithm form (cyclic groups of order r; Miller "
